@@ -20,7 +20,12 @@ VERIF = Path(__file__).resolve().parent.parent
 SPEC = VERIF / "spec"
 REPO = Path(os.environ.get("VERIF_REPO", "/repo"))
 TLA_CP = "/opt/veriftools/tla/tla2tools.jar:/opt/veriftools/tla/CommunityModules-deps.jar"
+# evidence / replay files go to /verif/evidence unless a trial run (tools/try_seed.sh) redirects them
+EVID = Path(os.environ.get("VERIF_EVIDENCE_DIR", str(VERIF / "evidence")))
 NCPU = int(os.environ.get("VERIF_WORKERS", str(os.cpu_count() or 4)))
+# the checks always import py_ecc from the working tree under test (default /repo)
+if str(REPO) not in sys.path:
+    sys.path.insert(0, str(REPO))
 
 
 class MachineryError(Exception):
@@ -210,7 +215,7 @@ class Ctx:
             self.log(f"TLC {name}: {res.generated} generated / {res.distinct} distinct, "
                      f"{len(res.violations)} violation(s), {res.wall:.1f}s")
         if res.error or (not res.ok and not res.violations):
-            keep = VERIF / "evidence" / "machinery"
+            keep = EVID / "machinery"
             keep.mkdir(parents=True, exist_ok=True)
             (keep / f"{self.pid}_{name}.out").write_text(res.out)
             raise MachineryError(f"TLC failed on {name}: {(res.error or res.out[-2000:])}")
@@ -218,7 +223,7 @@ class Ctx:
 
     # ------------------------------------------------------------ violations
     def replay_path(self, tag: str) -> Path:
-        d = VERIF / "evidence" / "replays" / self.pid
+        d = EVID / "replays" / self.pid
         d.mkdir(parents=True, exist_ok=True)
         return d / f"{tag}.json"
 
@@ -264,8 +269,8 @@ class Ctx:
             "violations": len(self.violations),
             "known_findings_hit": [k["key"] for k in self.known_hits],
         }
-        (VERIF / "evidence").mkdir(exist_ok=True)
-        (VERIF / "evidence" / f"{self.pid}.json").write_text(json.dumps(ev, indent=1, default=str))
+        EVID.mkdir(parents=True, exist_ok=True)
+        (EVID / f"{self.pid}.json").write_text(json.dumps(ev, indent=1, default=str))
         self.cleanup()
         if self.violations:
             return 1
